@@ -65,11 +65,11 @@ def escape_query(q):
 
 
 def parse_get(line):
-    """get <mode> {ops} {F <q>}* {B szx}* -> (mode, ops, q|None (options joined by '&'), [szx])"""
+    """lfget <mode> {ops} {F <q>}* {B szx}* -> (mode, ops, q|None (options joined by '&'), [szx])"""
     t = line.split()
     mode = int(t[1])
     fi = t.index("F") if "F" in t else len(t)
-    _, _, ops, _, _ = parse_case("wk " + " ".join(t[2:fi]) + " F ~")
+    _, _, ops, _, _ = parse_case("lfwk " + " ".join(t[2:fi]) + " F ~")
     qs = [b"" if t[i + 1] == "-" else bytes.fromhex(t[i + 1])
           for i in range(fi, len(t) - 1) if t[i] == "F" and t[i + 1] != "~"]
     q = b"&".join(qs) if qs else None
@@ -138,7 +138,7 @@ def parse_case(line):
     cmd = t[0]
     i = 1
     lk = -1
-    if cmd == "lk":
+    if cmd == "lflk":
         lk = int(t[1])
         i = 2
     ops = []
@@ -179,7 +179,7 @@ def parse_case(line):
 def expected_full(line):
     """the listing (wk) or the link (lk) the property demands, from the case alone"""
     cmd, lk, ops, q, _ = parse_case(line)
-    if cmd == "wk":
+    if cmd == "lfwk":
         return gen_link.py_listing(ops, q)
     tbl = gen_link.table_of_ops(ops)
     return gen_link.py_link(tbl[lk]) if 0 <= lk < len(tbl) else None
@@ -191,9 +191,9 @@ def impl_oracle(line, c_out):
     if c_out.startswith("CRASH") or c_out.startswith("<not run>"):
         return "driver crashed: " + c_out
     cmd = line.split()[0]
-    if cmd == "get":
+    if cmd == "lfget":
         return get_oracle(line, c_out)
-    if cmd not in ("wk", "lk"):
+    if cmd not in ("lfwk", "lflk"):
         return None
     want = expected_full(line)
     if want is None:
@@ -253,11 +253,11 @@ def locate_window(model, drv, line):
 def shrink_case(model, drv, line, bad):
     """drop resources / attributes while bad(line) still holds"""
     cmd, lk, ops, q, wins = parse_case(line)
-    if cmd != "wk":
+    if cmd != "lfwk":
         return line
 
     def mk(o):
-        return gen_link.case_line("wk", o, q, wins)
+        return gen_link.case_line("lfwk", o, q, wins)
     changed = True
     steps = 0
     while changed and steps < 60:
@@ -304,9 +304,9 @@ def gen_cases(run, r):
             seen.add((kind, q))
             L = len(gen_link.py_listing(ops, q))
             if L <= all_limit:
-                lines.append(gen_link.case_line("wk", ops, q))
+                lines.append(gen_link.case_line("lfwk", ops, q))
             else:
-                lines.append(gen_link.case_line("wk", ops, q, gen_link.boundary_windows(r, ops, q)))
+                lines.append(gen_link.case_line("lfwk", ops, q, gen_link.boundary_windows(r, ops, q)))
             kinds.append(kind)
         # GET /.well-known/core through a server endpoint, with and without block mode
         for k in range(3 if quick else 5):
@@ -324,7 +324,7 @@ def gen_cases(run, r):
             # an application resource registered under .well-known/core takes the request itself
             # (the built-in handler is not called): not part of the GET cases
             gops = [o for o in ops if o[1] != gen_link.WK and o[0] in ("R", "D")]
-            t = ["get", str(mode)] + gen_link.ops_tokens(gops) + ["F", "~" if q is None else gen_link.tok(q)]
+            t = ["lfget", str(mode)] + gen_link.ops_tokens(gops) + ["F", "~" if q is None else gen_link.tok(q)]
             if q is not None and r.random() < 0.12:
                 t += ["F", gen_link.tok(r.choice([b"if=x", b"a", b"rt=temp*", b"&", b"x=%41"]))]
             for z in szx:
@@ -335,16 +335,16 @@ def gen_cases(run, r):
         for k in range(min(len(tbl), 2 if quick else 4)):
             i = r.randrange(len(tbl))
             if len(gen_link.py_link(tbl[i])) <= all_limit:
-                lines.append(gen_link.case_line("lk %d" % i, ops, None))
+                lines.append(gen_link.case_line("lflk %d" % i, ops, None))
                 kinds.append("link")
     # many resources: uthash expands its bucket array (iteration must stay in registration order)
     for n in ([40, 400] if quick else [40, 400, 1500, 5000]):
         ops = [("M", n)]
         L = len(gen_link.py_listing(ops, None))
         wins = [(0, 64), (L // 2, 40), (L - 30, 64), (0, 0), (L, 5), (17, L), (0, L + 2)]
-        lines.append(gen_link.case_line("wk", ops, None, wins))
+        lines.append(gen_link.case_line("lfwk", ops, None, wins))
         kinds.append("many")
-        lines.append(gen_link.case_line("wk", ops, b"rt=t3", [(0, 100), (L // 7, 33), (0, L)]))
+        lines.append(gen_link.case_line("lfwk", ops, b"rt=t3", [(0, 100), (L // 7, 33), (0, L)]))
         kinds.append("many")
     return lines, kinds
 
@@ -376,7 +376,7 @@ def main(run):
             for pre in ("case: ", "original case: "):
                 if l.startswith(pre):
                     l = l[len(pre):]
-            if l.split(" ")[0] in ("wk", "lk", "get"):
+            if l.split(" ")[0] in ("lfwk", "lflk", "lfget"):
                 rl.append(l)
         lines, kinds, corpus = ["lfconst"] + rl, ["const"] + ["replay"] * len(rl), []
     else:
@@ -395,13 +395,13 @@ def main(run):
         for ln, k in zip(lines, kinds):
             if k in ("const", "link"):
                 continue
-            if ln.startswith("get "):
+            if ln.startswith("lfget "):
                 san_lines.append(ln)      # the handler (decoding, probe, print, block hand-off) under ASan
                 continue
             cmd, lk, ops, q, wins = parse_case(ln)
             if q is None:
                 continue
-            san_lines.append(gen_link.case_line("wk", ops, q, [(0, 7), (3, 0), (1, 4096)]))
+            san_lines.append(gen_link.case_line("lfwk", ops, q, [(0, 7), (3, 0), (1, 4096)]))
         if run.tier == "quick":
             san_lines = san_lines[:len(corpus) + 500]
         asan = vlib.build_driver("h_link", ["h_link.c"], variant="asan")
@@ -452,7 +452,7 @@ def main(run):
                 run.violation("constants of the model differ from the headers: model %s, code %s" % (mo, co),
                               "case: lfconst\nmodel: %s\nimpl: %s\n" % (mo, co), tag="const", no_input=True)
             continue
-        if ln.startswith("get "):
+        if ln.startswith("lfget "):
             mode, ops, q, szxs = parse_get(ln)
             tbl = gen_link.table_of_ops(ops)
             want = gen_link.py_listing(ops, q)
@@ -524,7 +524,7 @@ def main(run):
     # implementation printed must give back the registered + selected resources
     plines, pexp, psrc = [], [], []
     for i, ln in enumerate(lines):
-        if not ln.startswith("wk "):
+        if not ln.startswith("lfwk "):
             continue
         mf = re.search(r" full=(\S+)", oc[i])
         if not mf:
